@@ -1,6 +1,7 @@
 import SC.Properties.C04
 import SC.Proofs.Utf8Thy
 import SC.Proofs.RIndex
+import SC.Proofs.RCountByte
 /-!
 # C06 — total and memory-safe on arbitrary bytes
 
@@ -39,6 +40,11 @@ theorem index_total (cfg : A.Cfg) (s sub : Bytes) :
 
 /-- `IndexRune` likewise, for every `int32` -/
 theorem indexRune_total (cfg : A.Cfg) (s : Bytes) (r : Int) : A.IndexRune cfg s r = S.indexRune s r := A.IndexRune_eq cfg s r
+
+/-- `Count` never panics or hangs and `Cut` never takes its panic branch, on any bytes, in either package -/
+theorem count_cut_total (cfg : A.Cfg) (s sub : Bytes) :
+    0 ≤ A.Count cfg s sub ∧ (A.Cut cfg s sub).isSome = true := by
+  rw [A.Count_eq, A.Cut_eq]; exact ⟨Int.natCast_nonneg _, rfl⟩
 
 example : A.Count {} [0xFF, 0xFF] [0xFF, 0xFF] = 1 ∧ A.Count {pkg := .byt} [0xFF, 0xFF] [0xFF, 0xFF] = 1 := by decide +kernel
 end C06
